@@ -311,6 +311,19 @@ static void do_law(size_t nw, char **w) {
 		sm9_z256_fp12_pow(e2, g, b); sm9_z256_fp12_mul(e2, e1, e2); sm9_z256_fp12_pow(e3, g, s);
 		if (!fp12_same(e2, e3)) { printf("FAIL g^a*g^b"); return; }
 		printf("OK");
+	} else if (!strcmp(op, "powsplit") && nw == 3) { /* g^k = prod_i (g^(limb_i))^(2^(64 i)), the 2^64-th powers by explicit squarings */
+		sm9_z256_t li; int i, j;
+		sm9_z256_pairing(g, sm9_z256_twist_generator(), sm9_z256_generator());
+		if (!pow_ok(a)) { printf("SKIP"); return; }
+		sm9_z256_fp12_pow(e1, g, a);
+		sm9_z256_fp12_set_one(e2);
+		for (i = 3; i >= 0; i--) {
+			for (j = 0; j < 64; j++) sm9_z256_fp12_sqr(e2, e2);
+			li[0] = a[i]; li[1] = li[2] = li[3] = 0;
+			sm9_z256_fp12_pow(e3, g, li); sm9_z256_fp12_mul(e2, e2, e3);
+		}
+		if (!fp12_same(e1, e2)) { printf("FAIL g^k != limbwise"); return; }
+		printf("OK");
 	} else if (!strcmp(op, "frob") && nw == 4) {     /* Frobenius maps are ring homomorphisms and compose */
 		sm9_z256_fp12_t x, y, t1, t2, t3;
 		if (!get_fp12(w[2], x) || !get_fp12(w[3], y)) { printf("ERR"); return; }
